@@ -17,6 +17,8 @@ vh::use_jemalloc!();
 struct Cfg {
     min_pipeline_buffer: usize,
     batch_threshold: usize,
+    /// the socket takes at most this many bytes per write call (0 = no limit)
+    write_cap: usize,
     read_buffer_size: usize,
     shards: usize,
 }
@@ -31,7 +33,7 @@ impl Cfg {
         }
     }
     fn label(&self) -> String {
-        format!("mpb{}-bt{}-rb{}-sh{}", self.min_pipeline_buffer, self.batch_threshold, self.read_buffer_size, self.shards)
+        format!("mpb{}-bt{}-rb{}-sh{}{}", self.min_pipeline_buffer, self.batch_threshold, self.read_buffer_size, self.shards, if self.write_cap > 0 { format!("-wc{}", self.write_cap) } else { String::new() })
     }
 }
 
@@ -60,6 +62,7 @@ fn run_conn(cfg: Cfg, chunks: &[Vec<u8>]) -> Outcome {
         rt.block_on(async {
             let mut w = ConnWorld::new(cfg.shards);
             let (stream, id) = w.connect("conn", cfg.conn());
+            stream.set_write_cap(cfg.write_cap);
             for c in chunks {
                 stream.push(c);
             }
@@ -197,6 +200,7 @@ fn main() {
         let cfg = Cfg {
             min_pipeline_buffer: r["cfg"]["min_pipeline_buffer"].as_u64().unwrap() as usize,
             batch_threshold: r["cfg"]["batch_threshold"].as_u64().unwrap() as usize,
+            write_cap: r["cfg"]["write_cap"].as_u64().unwrap_or(0) as usize,
             read_buffer_size: r["cfg"]["read_buffer_size"].as_u64().unwrap() as usize,
             shards: r["cfg"]["shards"].as_u64().unwrap() as usize,
         };
@@ -246,17 +250,19 @@ fn main() {
     streams.sort();
     streams.dedup();
     let mut cfgs = vec![
-        Cfg { min_pipeline_buffer: 60, batch_threshold: 2, read_buffer_size: 8192, shards: 1 },
-        Cfg { min_pipeline_buffer: 1, batch_threshold: 2, read_buffer_size: 8192, shards: 1 },
-        Cfg { min_pipeline_buffer: 1, batch_threshold: 1, read_buffer_size: 8192, shards: 1 },
-        Cfg { min_pipeline_buffer: 16, batch_threshold: 3, read_buffer_size: 8192, shards: 2 },
+        Cfg { min_pipeline_buffer: 60, batch_threshold: 2, write_cap: 0, read_buffer_size: 8192, shards: 1 },
+        Cfg { min_pipeline_buffer: 1, batch_threshold: 2, write_cap: 0, read_buffer_size: 8192, shards: 1 },
+        Cfg { min_pipeline_buffer: 1, batch_threshold: 1, write_cap: 0, read_buffer_size: 8192, shards: 1 },
+        Cfg { min_pipeline_buffer: 16, batch_threshold: 3, write_cap: 0, read_buffer_size: 8192, shards: 2 },
+        // a socket that takes 3 bytes per write call: every reply batch needs several writes (short writes)
+        Cfg { min_pipeline_buffer: 60, batch_threshold: 2, write_cap: 3, read_buffer_size: 8192, shards: 1 },
         // a tiny read buffer: every read fills it completely, frames always span several reads
-        Cfg { min_pipeline_buffer: 60, batch_threshold: 2, read_buffer_size: 5, shards: 1 },
+        Cfg { min_pipeline_buffer: 60, batch_threshold: 2, write_cap: 0, read_buffer_size: 5, shards: 1 },
     ];
     if thorough {
-        cfgs.push(Cfg { min_pipeline_buffer: 1, batch_threshold: 2, read_buffer_size: 7, shards: 1 });
-        cfgs.push(Cfg { min_pipeline_buffer: 60, batch_threshold: 2, read_buffer_size: 8192, shards: 2 });
-        cfgs.push(Cfg { min_pipeline_buffer: 1, batch_threshold: 1, read_buffer_size: 5, shards: 2 });
+        cfgs.push(Cfg { min_pipeline_buffer: 1, batch_threshold: 2, write_cap: 0, read_buffer_size: 7, shards: 1 });
+        cfgs.push(Cfg { min_pipeline_buffer: 60, batch_threshold: 2, write_cap: 0, read_buffer_size: 8192, shards: 2 });
+        cfgs.push(Cfg { min_pipeline_buffer: 1, batch_threshold: 1, write_cap: 0, read_buffer_size: 5, shards: 2 });
     }
     let runs = AtomicU64::new(0);
     let segs_total = AtomicU64::new(0);
@@ -297,7 +303,7 @@ fn main() {
                     stream.iter().map(resp::show_argv).collect::<Vec<_>>().join("; "),
                     reference_cfg.label(), twin_replies.len(), stream.len(), show_replies(&twin_replies), twin.error
                 ),
-                json!({"cfg": {"min_pipeline_buffer": reference_cfg.min_pipeline_buffer, "batch_threshold": reference_cfg.batch_threshold, "read_buffer_size": reference_cfg.read_buffer_size, "shards": reference_cfg.shards},
+                json!({"cfg": {"min_pipeline_buffer": reference_cfg.min_pipeline_buffer, "batch_threshold": reference_cfg.batch_threshold, "write_cap": reference_cfg.write_cap, "read_buffer_size": reference_cfg.read_buffer_size, "shards": reference_cfg.shards},
                        "chunks": wires.iter().map(|c| resp::esc(c)).collect::<Vec<_>>(), "expected_count": stream.len()}),
             );
             return;
@@ -351,7 +357,7 @@ fn main() {
                     rep.violation(
                         format!("{} seg={seg_class} {batching}", v.sig),
                         v.detail,
-                        json!({"cfg": {"min_pipeline_buffer": cfg.min_pipeline_buffer, "batch_threshold": cfg.batch_threshold, "read_buffer_size": cfg.read_buffer_size, "shards": cfg.shards},
+                        json!({"cfg": {"min_pipeline_buffer": cfg.min_pipeline_buffer, "batch_threshold": cfg.batch_threshold, "write_cap": cfg.write_cap, "read_buffer_size": cfg.read_buffer_size, "shards": cfg.shards},
                                "chunks": chunks.iter().map(|c| resp::esc(c)).collect::<Vec<_>>(),
                                "expected": twin_replies.iter().map(resp::show).collect::<Vec<_>>()}),
                     );
@@ -402,7 +408,7 @@ fn main() {
                 let what = format!("good [{}] then malformed `{}` in reads {:?} (config {})",
                     stream.iter().map(resp::show_argv).collect::<Vec<_>>().join("; "), tname,
                     chunks.iter().map(|c| resp::esc(c)).collect::<Vec<_>>(), cfg.label());
-                let replay = json!({"cfg": {"min_pipeline_buffer": cfg.min_pipeline_buffer, "batch_threshold": cfg.batch_threshold, "read_buffer_size": cfg.read_buffer_size, "shards": cfg.shards},
+                let replay = json!({"cfg": {"min_pipeline_buffer": cfg.min_pipeline_buffer, "batch_threshold": cfg.batch_threshold, "write_cap": cfg.write_cap, "read_buffer_size": cfg.read_buffer_size, "shards": cfg.shards},
                     "chunks": chunks.iter().map(|c| resp::esc(c)).collect::<Vec<_>>(), "expect_error_after": stream.len()});
                 let seg_class = if cuts.is_empty() || cuts[0] <= good_len { "tail-whole" } else { "tail-split" };
                 if let Some(e) = &out.error {
